@@ -439,19 +439,32 @@ func matchFinding(fs []finding, prop string, in Inst, o exec.Outcome) *finding {
 // ---- the check driver ----------------------------------------------------------------------
 
 type replayFile struct {
-	Property  string   `json:"property"`
-	Pkg       string   `json:"pkg"`
-	Harness   string   `json:"harness"`
-	Args      []int64  `json:"args"`
-	Kind      string   `json:"kind"`
-	Detail    string   `json:"detail"`
-	Site      string   `json:"site"`
-	Nondet    []uint64 `json:"nondet"`
-	NondetK   []string `json:"nondet_kinds"`
-	Obs       []string `json:"obs,omitempty"`
-	Confirmed bool     `json:"confirmed"`
-	Native    string   `json:"native_outcome,omitempty"`
-	Note      string   `json:"note,omitempty"`
+	Property   string     `json:"property"`
+	Pkg        string     `json:"pkg"`
+	Harness    string     `json:"harness"`
+	Args       []int64    `json:"args"`
+	Kind       string     `json:"kind"`
+	Detail     string     `json:"detail"`
+	Site       string     `json:"site"`
+	Nondet     []uint64   `json:"nondet"`
+	NondetK    []string   `json:"nondet_kinds"`
+	Obs        []string   `json:"obs,omitempty"`
+	Confirmed  bool       `json:"confirmed"`
+	Native     string     `json:"native_outcome,omitempty"`
+	Note       string     `json:"note,omitempty"`
+	EngineOnly bool       `json:"engine_only,omitempty"`
+	Decisions  [][4]int64 `json:"decisions,omitempty"` // kind, K, N, V of every decision of the path (engine-level replay)
+	Ctx        int        `json:"context_bound,omitempty"`
+	Race       bool       `json:"race_check,omitempty"`
+	RandChoice bool       `json:"rand_choice,omitempty"`
+}
+
+func decVector(d []exec.Decision) [][4]int64 {
+	out := make([][4]int64, len(d))
+	for i, x := range d {
+		out[i] = [4]int64{int64(x.Kind), int64(x.K), int64(x.N), x.V}
+	}
+	return out
 }
 
 func nondetVec(o exec.Outcome) ([]uint64, []string) {
@@ -738,7 +751,8 @@ func runCheck(prop, tier string, opt options) int {
 		violations++
 		v, ks := nondetVec(g.o)
 		rf := replayFile{Property: prop, Pkg: g.in.Pkg, Harness: g.in.Fn, Args: g.in.Args, Kind: g.o.Kind, Detail: g.o.Detail,
-			Site: g.o.Site, Nondet: v, NondetK: ks, Obs: g.o.Obs, Confirmed: confirmed, Native: g.conf, Note: note}
+			Site: g.o.Site, Nondet: v, NondetK: ks, Obs: g.o.Obs, Confirmed: confirmed, Native: g.conf, Note: note,
+			EngineOnly: g.in.NoNative, Decisions: decVector(g.o.Dec), Ctx: g.in.Ctx, Race: g.in.Race, RandChoice: g.in.RandChoice}
 		path := filepath.Join(outDir, "replays", prop, fmt.Sprintf("%s-%d.json", g.in.Fn, i))
 		b, _ := json.MarshalIndent(rf, "", " ")
 		os.WriteFile(path, b, 0o644)
@@ -782,7 +796,7 @@ func runCheck(prop, tier string, opt options) int {
 			o := r.Samples[0]
 			v, _ := nondetVec(o)
 			samples = append(samples, map[string]interface{}{"harness": r.Inst.Fn, "args": r.Inst.Args, "outcome": o.Kind,
-				"nondet_model": v, "observations": o.Obs, "decisions": len(o.Dec), "note": r.Inst.Note})
+				"nondet_model": v, "observations": o.Obs, "decisions": len(o.Dec), "decision_vector_kind_K_N_V": truncDec(decVector(o.Dec)), "note": r.Inst.Note})
 		}
 	}
 	for _, sv := range sampleViol {
@@ -881,6 +895,13 @@ func runCheck(prop, tier string, opt options) int {
 // isTwinKind: violations whose native confirmation is a twin run (same input, different garbage).
 func isTwinKind(o exec.Outcome) bool {
 	return o.Kind == "region" || (o.Kind == "assert" && strings.Contains(o.Detail, ".stale"))
+}
+
+func truncDec(d [][4]int64) [][4]int64 {
+	if len(d) > 60 {
+		return d[:60]
+	}
+	return d
 }
 
 var digitsRe = regexp.MustCompile(`[0-9]+`)
